@@ -14,7 +14,7 @@ replayed by tools/audit.py (kind "refactor") in the thorough tier of every check
 import json, os, shutil, subprocess, sys, tempfile, concurrent.futures as cf
 
 VERIF = os.path.dirname(os.path.dirname(os.path.abspath(__file__)))
-ENV = dict(os.environ, GOFLAGS="-mod=mod", GOPROXY="off", GOSUMDB="off", GOTOOLCHAIN="local", GOWORK="off")
+ENV = dict(os.environ, GOFLAGS="-mod=mod -trimpath", GOPROXY="off", GOSUMDB="off", GOTOOLCHAIN="local", GOWORK="off")
 ALL = ["C%02d" % i for i in range(1, 21)]
 
 
